@@ -53,7 +53,7 @@ def _(self: Ref['mqtt.client.pubsubs.MQTTProtocol'], clientId: Str, keepalive: i
 # C12 / C10 (D10b): a clean CONNACK must fail what an earlier connection left behind, also the publishes still held
 # back in the queue; requests queued on THIS connection (ghost g_conn == self) must be left alone.  The purge only
 # looks at the two windows.
-@ghost_at('mqtt.client.pubsubs.MQTTProtocol.doPublish', after='self.factory.queuePublishTx[self.addr].append(request)', nth=0)
+@ghost_at('mqtt.client.pubsubs.MQTTProtocol.doPublish', after='request.deferred.msgId = request.msgId', nth=0)
 def _():
     gset(request.g_conn, self)
 
